@@ -82,7 +82,8 @@ type DRAResult struct {
 
 // DRAClaim is a ResourceClaim: Count devices of Class (All = allocation mode All), CapReq = capacity
 // request on "mem" (0 = none).  Alloc non-empty = already allocated in the cluster (AllocZone "" or
-// the zone of the allocation's node selector); Reserved = names of pods in status.reservedFor.
+// the zone of the allocation's node selector); Reserved = names of pods in status.reservedFor, Others = further
+// non-pod consumers there.
 type DRAClaim struct {
 	Name      string      `json:"name"`
 	Ns        string      `json:"ns"`
@@ -93,6 +94,7 @@ type DRAClaim struct {
 	Alloc     []DRAResult `json:"alloc"`
 	AllocZone string      `json:"allocZone"`
 	Reserved  []string    `json:"reserved"`
+	Others    int         `json:"others"` // number of additional NON-pod consumers in status.reservedFor
 }
 
 // DRAPodClaims lists the claims a pod (key ns/name) references through spec.resourceClaims.
@@ -288,6 +290,10 @@ func (sim *Sim) materialiseDRA() error {
 				return fmt.Errorf("claim %s reserved for unknown pod %s", c.Name, pn)
 			}
 			st.ReservedFor = append(st.ReservedFor, resourcev1.ResourceClaimConsumerReference{Resource: "pods", Name: pn, UID: p.UID})
+		}
+		for i := 0; i < c.Others; i++ {
+			st.ReservedFor = append(st.ReservedFor, resourcev1.ResourceClaimConsumerReference{APIGroup: "example.com", Resource: "workloads",
+				Name: fmt.Sprintf("wl-%d", i), UID: types.UID(fmt.Sprintf("wl-uid-%s-%d", c.Name, i))})
 		}
 		rc.Status = st
 		w.EnvCreate(rc)
